@@ -51,9 +51,7 @@ func c09Subjects(alpha, maxLen int, f func(s []string)) {
 	}
 	var rec func(cur []string)
 	rec = func(cur []string) {
-		if len(cur) > 0 {
-			f(cur)
-		}
+		f(cur) // the empty subject (reachable through the library interface only) included
 		if len(cur) == maxLen {
 			return
 		}
@@ -207,6 +205,9 @@ func c09Exec(x *engine.Ctx, cc any) {
 	prof := c09Profile(c)
 	one := func(s []string) {
 		rdn, err := config.ParseRDNSequence(c09SubjectString(s))
+		if len(s) == 0 {
+			rdn, err = pkix.RDNSequence{}, nil
+		}
 		if err != nil {
 			x.Violation("C09/parse-subject", err.Error())
 			return
@@ -375,7 +376,7 @@ func init() {
 	register(&engine.Check{
 		ID:          "C09",
 		Level:       "model_checking",
-		Rule:        "every profile = (attribute list of length 0..4 over {CN,O,C,1.2.3.4} x optional flag) x allowOther, plus the absent list (9363 profiles) x every subject of length 1..5 over {CN,O,C,1.2.3.4,L} (3905), and the same product over {1.2.3.4, 2.5.4.97, CN} with subjects over those plus L (3108 profiles x 1364 subjects): config.Validate on the real parsed RDN sequence vs. the reference predicate transcribed from the statement, one profile object shared by all its subjects as in a run and compared with its definition after every verdict, every verdict asked for twice on the same objects; plus 7 profiles x 9 subjects x 3 positions of the constrained entity in a root->mid->leaf chain through the whole file pipeline (rejected => planning error, empty write log), on a fresh directory, with a 60 / 80 / 300 KiB comment block in the profile file in front of its subject rules or at its top, and on a directory first generated under a profile of the same name without subject rules and then run with default / -m only / all four reasons / -a; and three forbidden subjects with the read of the profile file breaking off after every possible number of bytes (the subject must not be certified, whatever arrived). Pairs are distinct by construction; states = profiles, transitions = Validate calls / runs",
+		Rule:        "every profile = (attribute list of length 0..4 over {CN,O,C,1.2.3.4} x optional flag) x allowOther, plus the absent list (9363 profiles) x every subject of length 0..5 over {CN,O,C,1.2.3.4,L} (3905), and the same product over {1.2.3.4, 2.5.4.97, CN} with subjects over those plus L (3108 profiles x 1364 subjects): config.Validate on the real parsed RDN sequence vs. the reference predicate transcribed from the statement, one profile object shared by all its subjects as in a run and compared with its definition after every verdict, every verdict asked for twice on the same objects; plus 7 profiles x 9 subjects x 3 positions of the constrained entity in a root->mid->leaf chain through the whole file pipeline (rejected => planning error, empty write log), on a fresh directory, with a 60 / 80 / 300 KiB comment block in the profile file in front of its subject rules or at its top, and on a directory first generated under a profile of the same name without subject rules and then run with default / -m only / all four reasons / -a; and three forbidden subjects with the read of the profile file breaking off after every possible number of bytes (the subject must not be certified, whatever arrived). Pairs are distinct by construction; states = profiles, transitions = Validate calls / runs",
 		Bound:       map[string]string{"profile length": "<=4", "subject length": "<=5", "alphabet": "3 short names + 1 custom OID + 1 foreign attribute"},
 		Assumptions: []string{"profile attributes that the schema allows but no table resolves (PC, DC, T, UID, MAIL) are outside the statement"},
 		Budget:      budgets(quickBudget, thoroughBudget),
